@@ -398,13 +398,14 @@ def record(args, scratch):
         if scenario == "fresh":
             # order monitor on the fault-free latch: the key file is put under its final name, then OPENED FOR READING (the read-back the
             # statement demands), and only then is the attestation request written to the host socket
-            i_store = next((i for i, w_ in enumerate(mine) if w_[1].startswith("rename") and re.search(r'\.key"', w_[4].split(",")[-1] if "," in w_[4] else w_[4])), None)
-            i_attest = next((i for i, w_ in enumerate(mine) if w_[1] in ("write", "writev", "sendto", "sendmsg") and '"POST /secure-channel/key/' in w_[4]), None)     # strace shows the first 32 bytes: acquire is "POST /secure-channel/key HTTP..."
+            allc = ws_      # every thread, in the order of the trace: the three steps are sequential even if one of them runs on a helper thread
+            i_store = next((i for i, w_ in enumerate(allc) if w_[1].startswith("rename") and re.search(r'\.key"', w_[4].split(",")[-1] if "," in w_[4] else w_[4])), None)
+            i_attest = next((i for i, w_ in enumerate(allc) if w_[1] in ("write", "writev", "sendto", "sendmsg") and '"POST /secure-channel/key/' in w_[4]), None)     # strace shows the first 32 bytes: acquire is "POST /secure-channel/key HTTP..."
             readback = None
             if i_store is not None and i_attest is not None:
-                readback = any(w_[1] == "openat" and re.search(r'\.key"', w_[4]) and "O_RDONLY" in w_[4] and re.search(r"=\s*\d+\s*$", w_[4]) for w_ in mine[i_store + 1:i_attest])
+                readback = any(w_[1] == "openat" and re.search(r'\.key"', w_[4]) and "O_RDONLY" in w_[4] and re.search(r"=\s*\d+\s*$", w_[4]) for w_ in allc[i_store + 1:i_attest])
             out[scenario]["order_monitor"] = {"store_index": i_store, "attest_index": i_attest, "key_file_opened_for_reading_between": readback,
-                                               "calls_between": [w_[4].split(" ", 1)[-1][:160] for w_ in mine[(i_store or 0):(i_attest if i_attest is not None else (i_store or 0) + 30) + 1]][:40]}
+                                               "calls_between": [w_[4].split(" ", 1)[-1][:160] for w_ in allc[(i_store or 0):(i_attest if i_attest is not None else (i_store or 0) + 30) + 1]][:40]}
     return {"zones": out}
 
 
